@@ -274,6 +274,9 @@ M = [
     ('groupby-in-genimports', 'C01', I, "        for module in sorted(imports):\n            symbols = []\n", "        import itertools\n        dict((k, list(g)) for k, g in itertools.groupby(imports, key=len))\n        for module in sorted(imports):\n            symbols = []\n"),
     ('text-filter-only-when-given', 'C12', I, "        self.genRules['text'] = kwargs.get('genTexts', False)\n", "        if 'genTexts' in kwargs:\n            self.genRules['text'] = kwargs['genTexts']\n"),
     ('subdirs-skip-hidden', 'C14', RL, "            if os.path.isdir(d):\n                dirs.extend(self.getSubdirs(d, recursive))", "            if os.path.isdir(d) and not os.path.basename(d).startswith('.'):\n                dirs.extend(self.getSubdirs(d, recursive))"),
+    ('fuzzy-suffix-polarity', 'C14', 'pysmi/reader/base.py', "            if part != -1:\n", "            if part == -1:\n"),
+    ('fuzzy-off-by-default', 'C14', 'pysmi/reader/base.py', "    fuzzyMatching = True", "    fuzzyMatching = False"),
+    ('upper-case-extensions-dropped', 'C14', 'pysmi/reader/base.py', "    exts.extend([x.upper() for x in exts if x])\n", ""),
     ('compliance-module-unguarded-subscript', 'C11', P, "        objects = p[3] and p[3][1] or []\n", "        objects = p[3][1]\n"),
 ]
 
